@@ -422,6 +422,142 @@ func checkC05Rest(c *core.Ctx) {
 		pk := core.FnPkg(fn)
 		return pk != nil && pk.Path() == core.Mod
 	})
+
+	// ---- R5.6: no stale elements are exposed by growing a field's slice into its spare capacity
+	r6 := c.Rule("R5.6", "T", "decode code never grows a slice held in a layer field by re-slicing past its length (f[:len(f)+k], f[:cap(f)]): the exposed elements carry an earlier packet's values")
+	{
+		roots := p.Roots()
+		nF, nBad := 0, 0
+		fieldOf := func(v ssa.Value) string {
+			for i := 0; i < 6; i++ {
+				switch y := v.(type) {
+				case *ssa.Slice:
+					v = y.X
+					continue
+				case *ssa.ChangeType:
+					v = y.X
+					continue
+				}
+				break
+			}
+			if a, ok := core.IsLoad(v); ok {
+				if pth, _ := core.FieldPath(a); pth != "" {
+					return pth
+				}
+			}
+			return ""
+		}
+		for _, fn := range core.SortedFns(roots.DecReach) {
+			if fn.Pkg == nil || strings.HasSuffix(p.Pos(fn.Pos()), "_test.go") {
+				continue
+			}
+			k := 0
+			core.Instrs(fn, func(ins ssa.Instruction) {
+				sl, ok := ins.(*ssa.Slice)
+				if !ok || sl.High == nil {
+					return
+				}
+				if _, isSl := sl.X.Type().Underlying().(*types.Slice); !isSl {
+					return
+				}
+				fp := fieldOf(sl.X)
+				if fp == "" {
+					return
+				}
+				nF++
+				beyond := ""
+				var scan func(v ssa.Value, d int)
+				scan = func(v ssa.Value, d int) {
+					if d > 6 {
+						return
+					}
+					switch x := v.(type) {
+					case *ssa.Convert:
+						scan(x.X, d+1)
+					case *ssa.BinOp:
+						if x.Op == token.ADD {
+							for _, pair := range [][2]ssa.Value{{x.X, x.Y}, {x.Y, x.X}} {
+								if of, isL := core.IsLen(pair[0]); isL && fieldOf(of) == fp {
+									if kk, ok := core.ConstFold(pair[1]); !ok || kk > 0 {
+										beyond = "len+k"
+									}
+								}
+							}
+						}
+						scan(x.X, d+1)
+						scan(x.Y, d+1)
+					case *ssa.Call:
+						if nm, cc := core.BuiltinCall(x); nm == "cap" && fieldOf(cc.Args[0]) == fp {
+							beyond = "cap"
+						}
+					}
+				}
+				scan(sl.High, 0)
+				if beyond == "" {
+					return
+				}
+				nBad++
+				k++
+				key := core.FnKey(fn) + "/grows:" + fp
+				if k > 1 {
+					key += "#" + string(rune('0'+k))
+				}
+				r6.Violate(key, p.InstrPos(ins), "the slice in field "+fp+" is re-sliced up to "+beyond+" of itself: the elements that become visible were written while decoding an earlier packet into this layer object and any field of them that is not stored again leaks into this packet's result", nil)
+			})
+		}
+		c.Counts["field_slice_reslices"] = nF
+		if nF < 20 {
+			r6.Missing("decode/field-reslices", fmt.Sprintf("only %d re-slices of field-held slices seen", nF))
+		}
+		if nBad == 0 {
+			r6.OK("decode/no-growth", "", fmt.Sprintf("%d re-slices of field-held slices with a high bound, none beyond the slice's own length", nF))
+		}
+	}
+
+	// ---- R5.7: the parser's bound decode function is rebuilt whenever what it was built from changes
+	r7 := c.Rule("R5.7", "T", "DecodingLayerParser: every store to dlc/first/df is followed on every path by a store to decodeFunc (the closure captures the container by value)")
+	{
+		n := 0
+		for _, fn := range core.SortedFns(p.AllFns) {
+			if core.FnPkg(fn) == nil || core.FnPkg(fn).Path() != core.Mod || len(fn.Blocks) == 0 || strings.HasSuffix(p.Pos(fn.Pos()), "_test.go") {
+				continue
+			}
+			core.Instrs(fn, func(ins ssa.Instruction) {
+				st, ok := ins.(*ssa.Store)
+				if !ok {
+					return
+				}
+				fa, ok := st.Addr.(*ssa.FieldAddr)
+				if !ok || !core.NamedIs(fa.X.Type(), "DecodingLayerParser") {
+					return
+				}
+				name := core.FieldOfAddr(fa).Name()
+				if name != "dlc" && name != "first" && name != "df" {
+					return
+				}
+				// a freshly allocated parser under construction is covered when the constructor reaches a decodeFunc store too
+				n++
+				key := core.FnKey(fn) + "/store:" + name
+				esc := core.ForwardSearch(fn, ins, func(i ssa.Instruction) bool { _, isRet := i.(*ssa.Return); return isRet }, func(i ssa.Instruction) bool {
+					if s2, ok := i.(*ssa.Store); ok {
+						if f2, ok := s2.Addr.(*ssa.FieldAddr); ok && core.NamedIs(f2.X.Type(), "DecodingLayerParser") && core.FieldOfAddr(f2).Name() == "decodeFunc" {
+							return true
+						}
+					}
+					if cc := core.CallCommonOf(i); cc != nil {
+						if f := cc.StaticCallee(); f != nil && f.Name() == "SetDecodingLayerContainer" {
+							return true
+						}
+					}
+					return false
+				})
+				r7.Check(esc == nil, key, p.InstrPos(ins), "decodeFunc is rebuilt on every path after this store", "a path returns after changing "+name+" without rebuilding decodeFunc: DecodeLayers keeps decoding with the container/first type captured earlier, so layers added later are never reached with the array and sparse containers")
+			})
+		}
+		if n < 2 {
+			r7.Missing("DecodingLayerParser/stores", fmt.Sprintf("only %d stores to dlc/first/df found", n))
+		}
+	}
 }
 
 func firstDiff(a, b string) string {
